@@ -61,7 +61,7 @@ func sameGarbling(l *c17Live) string {
 func init() {
 	vrt.Register(&vrt.Prop{
 		ID: "C17", Level: "exploration",
-		Rule: "case = a FRESH circuit value (generated, 3-400 gates, or parsed AES-128 in thorough) shared by G in {2,4,16,64} goroutines released by a barrier (so lazy pool creation is raced); each goroutine runs 30-300 operations drawn from {Garble, Eval on its own garbling, Compute, Release, double Release, hold-and-recheck, keep the slices of a garbling but drop its handle and never release it (a few garbage collections are forced while such orphans are alive)} with its own deterministic label stream. Runs under the Go race detector. " +
+		Rule: "case = a FRESH circuit value (generated, 3-400 gates, or parsed AES-128 in thorough) shared by G in {2,4,16,64} goroutines released by a barrier (so lazy pool creation is raced); each goroutine runs 30-300 operations drawn from {Garble, Garble on a label source that dies after a PRNG number of bytes, Eval on its own garbling, Compute, Release, double Release, hold-and-recheck, keep the slices of a garbling but drop its handle and never release it (a few garbage collections are forced while such orphans are alive)} with its own deterministic label stream. Runs under the Go race detector. " +
 			"Oracles: zero race reports with circuit frames; Compute equals the reference evaluation; each Eval on the goroutine's own garbling decodes to the reference; a deep snapshot of a live garbling taken after Garble equals the garbling right before Release (nobody else wrote into its scratch); no two live garblings share a backing array. Distinct = hash of the completion order of operations (distinct interleavings observed).",
 		Assumptions: []string{"race reports vary from run to run: the script is repeated on fresh circuits"},
 		NumCases: func(t string) int {
@@ -167,6 +167,19 @@ func runC17(cs *vrt.Case) {
 			for op := 0; op < nops; op++ {
 				switch k := rr.Intn(10); {
 				case k < 3 || len(mine) == 0: // Garble
+					if rr.Intn(8) == 0 {
+						// a garbling that fails part-way: the label source gives out
+						// after a PRNG number of bytes. Whatever the failed call had
+						// taken from the pool must be returned exactly once.
+						fr := &failingReader{r: rr.Fork(), left: rr.Intn(16*(2*nin+3) + 8)}
+						if g, err := c.Garble(fr, rr.Bytes(32)); err == nil {
+							if g != nil {
+								g.Release()
+							}
+						} else {
+							local["garblings_failed_on_a_dying_label_source"]++
+						}
+					}
 					key := rr.Bytes(vrt.Pick(rr, []int{16, 24, 32}))
 					gkey := key
 					if reuseKeyBuf {
@@ -312,4 +325,23 @@ func runC17(cs *vrt.Case) {
 		cs.Violate("C17|"+firstWords(p, 5), p, map[string]any{"case": desc})
 	}
 	cs.Keys = append(cs.Keys, vrt.HashBytes(order))
+}
+
+// failingReader yields left PRNG bytes and then fails.
+type failingReader struct {
+	r    *vrt.Rng
+	left int
+}
+
+func (f *failingReader) Read(p []byte) (int, error) {
+	if f.left <= 0 {
+		return 0, fmt.Errorf("label source exhausted")
+	}
+	n := min(len(p), f.left)
+	f.r.Read(p[:n])
+	f.left -= n
+	if n < len(p) {
+		return n, fmt.Errorf("label source exhausted")
+	}
+	return n, nil
 }
